@@ -14,7 +14,7 @@ Mags == IF IOEnv.MCL_MAGS = "n" THEN {"n"} ELSE IF IOEnv.MCL_MAGS = "n,g" THEN {
 
 \* (states, request distance) blocks: wide in one dimension, narrow in the other
 Blocks == IF Tier = "thorough"
-          THEN << [S |-> AbsStates(2, Mags), k |-> 1], [S |-> AbsStates(1, Mags), k |-> 2] >>
+          THEN << [S |-> AbsStates(2, Mags), k |-> 2] >>
           ELSE << [S |-> AbsStates(1, Mags), k |-> 1],
                   [S |-> {s \in AbsStates(1, Mags) : s.pol = 1 /\ s = [GoodState(s.dir, 1) EXCEPT !.mag = s.mag]},
                    k |-> 2] >>
